@@ -205,12 +205,22 @@ def _one_shot(ctx, built, salt):
     """extend()/+= accept any iterable of children: sometimes hand over a one-shot iterator instead of the container."""
     if isinstance(built, (list, tuple)) and (len(built) + salt) % 4 == 0:
         ctx.count("one_shot_iterables")
-        kind = (len(built) + salt) % 3
+        kind = ((len(built) + salt) // 4 + len(built)) % 4
         if kind == 0:
             return iter(built)
         if kind == 1:
             return (x for x in built)
-        return map(lambda x: x, built)
+        if kind == 2:
+            return map(lambda x: x, built)
+
+        def busy():
+            # an iterable that itself builds tags / lists while it is being consumed (re-entrancy of the flattening code)
+            for x in built:
+                ht.div("side effect", ["nested", ("deeper", ht.span("s"))], ht.TagList("t", None, 5))
+                ht.TagList(["a", ["b"]]).extend(["c", ("d",)])
+                yield x
+
+        return busy()
     return built
 
 
